@@ -916,7 +916,7 @@ theorem map_tree_congr {v1 v2 : Nat → Val} {cs : List Nat} (h : ∀ i ∈ cs, 
 
 /-- `sem` reads `v` at the call's arguments only -/
 theorem sem_congr (H) (v1 v2 : Nat → Val) (op : Op) (h : ∀ i ∈ opIds op, v1 i = v2 i) : sem H v1 op = sem H v2 op := by
-  cases op <;> simp only [opIds, List.mem_cons, List.mem_singleton, List.not_mem_nil, or_false, forall_eq_or_imp, forall_eq] at h <;>
+  cases op <;> simp only [opIds, List.mem_cons, List.not_mem_nil, or_false, forall_eq_or_imp, forall_eq] at h <;>
     simp only [sem]
   case newRefs cs => rw [all_congr h, map_tree_congr h]
   case cellCtor => rw [h.1, h.2]
@@ -1077,8 +1077,8 @@ theorem ref_cellCtor {H σ} (h : Inv H σ) (ub ur : Nat) (kind : Int) (h1 : ub <
   refine ⟨?_, by simp [sem], fun _ => .inl rfl⟩
   simp only [step, sem]
   cases t1 : (σ.obj ub).tag <;> cases t2 : (σ.obj ur).tag <;>
-    simp only [State.has, h1, h2, t1, t2, valOf, decide_true, decide_false, Bool.and_true, Bool.and_false, Bool.false_and,
-      Bool.true_and, if_true, if_false, outVal, Bool.false_eq_true, reduceCtorEq] <;> try rfl
+    simp only [State.has, h1, h2, t1, t2, valOf, decide_true, decide_false, Bool.and_true, Bool.and_false,
+      if_true, if_false, outVal, Bool.false_eq_true, reduceCtorEq] <;> try rfl
   -- ub is an array, ur a list
   have o := h.wf.off0 ur h2 (by simp [t2])
   have hl : CellsAt σ (σ.refBuf (σ.obj ur).refsId) := cellsAt_refBuf h h2 (by simp [t2, Tag.hasRefs])
@@ -1330,5 +1330,184 @@ theorem ref_observe {H σ} (h : Inv H σ) (c : Nat) (hc : c < σ.nObj) : Refines
     have : ∀ t, valOf σ c ≠ .cell t := by
       intro t; unfold valOf; cases e : (σ.obj c).tag <;> simp_all
     simp only [step, sem, hhas]; split <;> simp_all [outVal]
+
+theorem vals_append (σ : State) (l l' : List Nat) : vals σ (l ++ l') = vals σ l ++ vals σ l' := by simp [vals]
+theorem vals_length (σ : State) (l : List Nat) : (vals σ l).length = l.length := by simp [vals]
+
+theorem ref_storeFrom {H σ} (h : Inv H σ) (b src : Nat) (hi : b < σ.nObj) (hs : src < σ.nObj) : Refines H σ (.storeFrom b src) := by
+  by_cases ht : (σ.obj b).tag = .builder
+  · have hhas : σ.has b .builder = true := has_iff.mpr ⟨hi, ht⟩
+    have o := h.wf.off0 b hi (by simp [ht])
+    cases hsrc : (σ.obj src).tag with
+    | ubits =>
+      have h1 : σ.has src .ubits = true := has_iff.mpr ⟨hs, hsrc⟩
+      by_cases hn : (σ.bitsOf b).length + (σ.bitsOf src).length > 1023
+      · have hstep : step H σ (.storeFrom b src) = (σ, .err) := by simp only [step, hhas, h1, if_true]; rw [if_pos hn]
+        have hsem : sem H (valOf σ) (.storeFrom b src) = (.err, none) := by
+          simp only [sem, valOf_builder ht, valOf_ubits hsrc]; rw [if_pos hn]
+        rw [Refines_iff, hstep, hsem]; exact ⟨rfl, by simp, fun _ => .inr rfl⟩
+      · have hstep : step H σ (.storeFrom b src) = (σ.setB (σ.obj b).bitsId (σ.bitsOf b ++ σ.bitsOf src), .unit) := by
+          simp only [step, hhas, h1, if_true]; rw [if_neg hn]
+        have hsem : sem H (valOf σ) (.storeFrom b src) =
+            (.unit, some (.builder (σ.bitsOf b ++ σ.bitsOf src) (vals σ (σ.refsOf b)))) := by
+          simp only [sem, valOf_builder ht, valOf_ubits hsrc]; rw [if_neg hn]
+        rw [Refines_iff, hstep, hsem]
+        refine ⟨rfl, ?_, by simp⟩
+        intro w hw; cases hw
+        exact ⟨b, rfl, hi, by simp [valOf, ht, State.bitsOf, State.refsOf, vals]⟩
+    | urefs =>
+      have h1 : σ.has src .ubits = false := by simp [State.has, hsrc]
+      have h2 : (σ.has src .cell || σ.has src .slice) = false := by simp [State.has, hsrc]
+      have hstep : step H σ (.storeFrom b src) = (σ, .err) := by simp [step, hhas, h1, h2]
+      have hu : valOf σ src = .refs (vals σ (σ.refsOf src)) := by simp [valOf, hsrc]
+      have hsem : sem H (valOf σ) (.storeFrom b src) = (.err, none) := by simp only [sem, valOf_builder ht, hu]
+      rw [Refines_iff, hstep, hsem]; exact ⟨rfl, by simp, fun _ => .inr rfl⟩
+    | builder =>
+      have h1 : σ.has src .ubits = false := by simp [State.has, hsrc]
+      have h2 : (σ.has src .cell || σ.has src .slice) = false := by simp [State.has, hsrc]
+      have hstep : step H σ (.storeFrom b src) = (σ, .err) := by simp [step, hhas, h1, h2]
+      have hsem : sem H (valOf σ) (.storeFrom b src) = (.err, none) := by simp [sem, valOf_builder ht, valOf_builder hsrc]
+      rw [Refines_iff, hstep, hsem]; exact ⟨rfl, by simp, fun _ => .inr rfl⟩
+    | cell =>
+      have h1 : σ.has src .ubits = false := by simp [State.has, hsrc]
+      have h2 : (σ.has src .cell || σ.has src .slice) = true := by simp [State.has, hsrc, hs]
+      by_cases hn1 : (σ.refsOf b).length + (σ.refsOf src).length > 4
+      · have hstep : step H σ (.storeFrom b src) = (σ, .err) := by
+          simp only [step, hhas, h1, h2, if_true, Bool.false_eq_true, if_false]; rw [if_pos hn1]
+        have hsem : sem H (valOf σ) (.storeFrom b src) = (.err, none) := by
+          simp only [sem, valOf_builder ht, valOf_cell' hsrc, vals_length]; rw [if_pos hn1]
+        rw [Refines_iff, hstep, hsem]; exact ⟨rfl, by simp, fun _ => .inr rfl⟩
+      · by_cases hn2 : (σ.bitsOf b).length + (σ.bitsOf src).length > 1023
+        · have hstep : step H σ (.storeFrom b src) = (σ, .err) := by
+            simp only [step, hhas, h1, h2, if_true, Bool.false_eq_true, if_false]; rw [if_neg hn1, if_pos hn2]
+          have hsem : sem H (valOf σ) (.storeFrom b src) = (.err, none) := by
+            simp only [sem, valOf_builder ht, valOf_cell' hsrc, vals_length]; rw [if_neg hn1, if_pos hn2]
+          rw [Refines_iff, hstep, hsem]; exact ⟨rfl, by simp, fun _ => .inr rfl⟩
+        · have hstep : step H σ (.storeFrom b src) =
+              ((σ.setB (σ.obj b).bitsId (σ.bitsOf b ++ σ.bitsOf src)).setR (σ.obj b).refsId (σ.refsOf b ++ σ.refsOf src), .unit) := by
+            simp only [step, hhas, h1, h2, if_true, Bool.false_eq_true, if_false]; rw [if_neg hn1, if_neg hn2]
+          have hsem : sem H (valOf σ) (.storeFrom b src) =
+              (.unit, some (.builder (σ.bitsOf b ++ σ.bitsOf src) (vals σ (σ.refsOf b) ++ vals σ (σ.refsOf src)))) := by
+            simp only [sem, valOf_builder ht, valOf_cell' hsrc, vals_length]; rw [if_neg hn1, if_neg hn2]
+          rw [Refines_iff, hstep, hsem]
+          refine ⟨rfl, ?_, by simp⟩
+          intro w hw; cases hw
+          exact ⟨b, rfl, hi, by simp [valOf, ht, State.bitsOf, State.refsOf, vals, o]⟩
+    | slice =>
+      have h1 : σ.has src .ubits = false := by simp [State.has, hsrc]
+      have h2 : (σ.has src .cell || σ.has src .slice) = true := by simp [State.has, hsrc, hs]
+      by_cases hn1 : (σ.refsOf b).length + (σ.refsOf src).length > 4
+      · have hstep : step H σ (.storeFrom b src) = (σ, .err) := by
+          simp only [step, hhas, h1, h2, if_true, Bool.false_eq_true, if_false]; rw [if_pos hn1]
+        have hsem : sem H (valOf σ) (.storeFrom b src) = (.err, none) := by
+          simp only [sem, valOf_builder ht, valOf_slice hsrc, vals_length]; rw [if_pos hn1]
+        rw [Refines_iff, hstep, hsem]; exact ⟨rfl, by simp, fun _ => .inr rfl⟩
+      · by_cases hn2 : (σ.bitsOf b).length + (σ.bitsOf src).length > 1023
+        · have hstep : step H σ (.storeFrom b src) = (σ, .err) := by
+            simp only [step, hhas, h1, h2, if_true, Bool.false_eq_true, if_false]; rw [if_neg hn1, if_pos hn2]
+          have hsem : sem H (valOf σ) (.storeFrom b src) = (.err, none) := by
+            simp only [sem, valOf_builder ht, valOf_slice hsrc, vals_length]; rw [if_neg hn1, if_pos hn2]
+          rw [Refines_iff, hstep, hsem]; exact ⟨rfl, by simp, fun _ => .inr rfl⟩
+        · have hstep : step H σ (.storeFrom b src) =
+              ((σ.setB (σ.obj b).bitsId (σ.bitsOf b ++ σ.bitsOf src)).setR (σ.obj b).refsId (σ.refsOf b ++ σ.refsOf src), .unit) := by
+            simp only [step, hhas, h1, h2, if_true, Bool.false_eq_true, if_false]; rw [if_neg hn1, if_neg hn2]
+          have hsem : sem H (valOf σ) (.storeFrom b src) =
+              (.unit, some (.builder (σ.bitsOf b ++ σ.bitsOf src) (vals σ (σ.refsOf b) ++ vals σ (σ.refsOf src)))) := by
+            simp only [sem, valOf_builder ht, valOf_slice hsrc, vals_length]; rw [if_neg hn1, if_neg hn2]
+          rw [Refines_iff, hstep, hsem]
+          refine ⟨rfl, ?_, by simp⟩
+          intro w hw; cases hw
+          exact ⟨b, rfl, hi, by simp [valOf, ht, State.bitsOf, State.refsOf, vals, o]⟩
+  · have hhas : σ.has b .builder = false := by simp [State.has, ht]
+    have := not_builder_sem ht
+    refine ⟨?_, ?_, fun _ => .inr ?_⟩ <;> simp only [step, sem, hhas] <;> split <;> simp_all [outVal]
+
+/-- REFINEMENT: every transition computes `sem` on the VALUES of its arguments -/
+theorem step_sem {H σ} (h : Inv H σ) (op : Op) (hid : ∀ i ∈ opIds op, i < σ.nObj) : Refines H σ op := by
+  cases op with
+  | newBits bs => exact ref_newBits bs
+  | newRefs cs => exact ref_newRefs h cs hid
+  | cellCtor ub ur kind => exact ref_cellCtor h ub ur kind (hid ub (by simp [opIds])) (hid ur (by simp [opIds]))
+  | cellFresh bs cs kind => exact ref_cellFresh h bs cs kind hid
+  | sliceFresh bs cs kind => exact ref_sliceFresh h bs cs kind hid
+  | builderNew => exact ref_builderNew
+  | derive src dst => exact ref_derive h src dst (hid src (by simp [opIds]))
+  | dropBits s n ret => exact ref_dropBits h s n ret (hid s (by simp [opIds]))
+  | peekBits s n => exact ref_peekBits s n (hid s (by simp [opIds]))
+  | loadRef s => exact ref_loadRef h s (hid s (by simp [opIds]))
+  | storeBits b bs => exact ref_storeBits b bs (hid b (by simp [opIds]))
+  | storeFrom b src => exact ref_storeFrom h b src (hid b (by simp [opIds])) (hid src (by simp [opIds]))
+  | storeRef b c => exact ref_storeRef h b c (hid b (by simp [opIds])) (hid c (by simp [opIds]))
+  | observe c => exact ref_observe h c (hid c (by simp [opIds]))
+
+/-- ISOLATION at the level of one transition: no object other than the call's `self` changes value, and `self`
+changes only when `sem` says so -/
+theorem step_isolated {H σ} (h : Inv H σ) (op : Op) (hid : ∀ i ∈ opIds op, i < σ.nObj) (i : Nat) (hi : i < σ.nObj)
+    (hne : recvOf op = some i → (sem H (valOf σ) op).2 = none) : valOf (step H σ op).1 i = valOf σ i := by
+  by_cases e : recvOf op = some i
+  · rcases (step_sem h op hid).same (hne e) with e' | e'
+    · rw [e'] at e; cases e
+    · rw [e']
+  · exact valOf_frame h (frame_step H σ op) i hi e
+
+theorem opIds_rename (ρ : Nat → Nat) (op : Op) : opIds (renameOp ρ op) = (opIds op).map ρ := by
+  cases op <;> simp [opIds, renameOp]
+
+theorem recvOf_rename (ρ : Nat → Nat) (op : Op) : recvOf (renameOp ρ op) = (recvOf op).map ρ := by
+  cases op <;> simp [recvOf, renameOp]
+
+theorem recv_mem_opIds {op : Op} {r : Nat} (h : recvOf op = some r) : r ∈ opIds op := by
+  cases op <;> simp [recvOf, opIds] at h ⊢ <;> simp [h]
+
+/-- two (possibly different) states, the same call on arguments with equal VALUES: equal result value, equal new
+value of `self` -/
+theorem hist_indep {H σ1 σ2} (i1 : Inv H σ1) (i2 : Inv H σ2) (op : Op) (ρ : Nat → Nat)
+    (hid1 : ∀ i ∈ opIds op, i < σ1.nObj) (hid2 : ∀ i ∈ opIds op, ρ i < σ2.nObj)
+    (hv : ∀ i ∈ opIds op, valOf σ1 i = valOf σ2 (ρ i)) :
+    outVal (step H σ1 op).1 (step H σ1 op).2 = outVal (step H σ2 (renameOp ρ op)).1 (step H σ2 (renameOp ρ op)).2 ∧
+    ∀ r, recvOf op = some r → valOf (step H σ1 op).1 r = valOf (step H σ2 (renameOp ρ op)).1 (ρ r) := by
+  have hid2' : ∀ i ∈ opIds (renameOp ρ op), i < σ2.nObj := by
+    rw [opIds_rename]; intro i hi
+    obtain ⟨j, hj, rfl⟩ := List.mem_map.mp hi
+    exact hid2 j hj
+  have r1 := step_sem i1 op hid1
+  have r2 := step_sem i2 (renameOp ρ op) hid2'
+  have es : sem H (valOf σ2) (renameOp ρ op) = sem H (valOf σ1) op := by
+    rw [sem_rename]; exact (sem_congr H _ _ op hv).symm
+  refine ⟨by rw [r1.out, r2.out, es], ?_⟩
+  intro r hr
+  have hr2 : recvOf (renameOp ρ op) = some (ρ r) := by rw [recvOf_rename, hr]; rfl
+  have hmem := recv_mem_opIds hr
+  cases hw : (sem H (valOf σ1) op).2 with
+  | some w =>
+    obtain ⟨r', e1, _, v1⟩ := r1.recv w hw
+    obtain ⟨r'', e2, _, v2⟩ := r2.recv w (by rw [es]; exact hw)
+    rw [hr] at e1; cases e1
+    rw [hr2] at e2; cases e2
+    rw [v1, v2]
+  | none =>
+    rw [step_isolated i1 op hid1 r (hid1 r hmem) (fun _ => hw),
+      step_isolated i2 (renameOp ρ op) hid2' (ρ r) (hid2 r hmem) (fun _ => by rw [es]; exact hw)]
+    exact hv r hmem
+
+/-- objects that are not Slices/Builders (cells, caller-held arrays and lists) never change value -/
+theorem nonowner_step {H σ} (h : Inv H σ) (op : Op) (i : Nat) (hi : i < σ.nObj) (hno : (σ.obj i).tag.owner = false) :
+    valOf (step H σ op).1 i = valOf σ i ∧ (step H σ op).1.obj i = σ.obj i := by
+  have f := frame_step H σ op
+  rcases f.owner with e | ho
+  · rw [e]; exact ⟨rfl, rfl⟩
+  · have hne : recvOf op ≠ some i := by
+      intro e'; have := (ho i e').2; rw [hno] at this; cases this
+    exact ⟨valOf_frame h f i hi hne, f.obj i hi hne⟩
+
+theorem nonowner_run {H σ} (h : Inv H σ) (ops : List Op) (i : Nat) (hi : i < σ.nObj) (hno : (σ.obj i).tag.owner = false) :
+    valOf (run H σ ops) i = valOf σ i := by
+  induction ops generalizing σ with
+  | nil => rfl
+  | cons op ops ih =>
+    obtain ⟨a, b⟩ := nonowner_step h op i hi hno
+    have hi' : i < (step H σ op).1.nObj := Nat.lt_of_lt_of_le hi (frame_step H σ op).nObj
+    simp only [run]
+    rw [ih (inv_step h op) hi' (by rw [b]; exact hno), a]
 
 end TonVerif.Proofs.Heap
